@@ -16,6 +16,13 @@ package client
 //@   ensures-local status == 404 ==> result1 == nil && result0 != nil && len(result0.MultihashResults) == 0 && count("call:UnmarshalFindResponse") == 0
 //@   ensures-local status != 0 && status != 200 && status != 404 ==> result1 != nil && result0 == nil
 //@   ensures-local status == 200 ==> count("call:ReadAll") == 1
+// what is decoded is the whole response body (a result list has no size limit), read from the response itself
+//@   ghost gbody := zero("io.ReadCloser")
+//@   ghost gread := zero("[]byte")
+//@   at call Do: after ghost gbody := ite(result1 == nil, result0.Body, gbody)
+//@   at call ReadAll: assert arg0 == gbody
+//@   at call ReadAll: after ghost gread := result0
+//@   at call UnmarshalFindResponse: assert arg0 == gread
 
 // ---------------------------------------------------------------------------
 // Property C12, last clause: the reader-privacy lookup workflow (call protocol over the dhash functions,
